@@ -45,6 +45,8 @@ enum Harm {
     ForgedNxdomainBelowCut,
     /// The RRset of a wildcard above a blocking name, re-owned to the query name.
     WildcardReplay,
+    /// The unsigned CNAME next to a DNAME redirected to another signed name.
+    ForgeDnameCname,
 }
 
 #[derive(Default)]
@@ -121,7 +123,7 @@ fn harm(r: &mut Resp, h: Harm, world: &World) -> bool {
     use domain::rdata::ZoneRecordData as D;
     let is_sig = |rec: &super::dnssec_world::SRec| rec.rtype() == Rtype::RRSIG;
     match h {
-        Harm::None | Harm::TransportError | Harm::Nxdomain | Harm::ForgedNxdomainBelowCut | Harm::WildcardReplay => false,
+        Harm::None | Harm::TransportError | Harm::Nxdomain | Harm::ForgedNxdomainBelowCut | Harm::WildcardReplay | Harm::ForgeDnameCname => false,
         Harm::DropRrsig => {
             // Drop every RRSIG of one signed RRset.
             let sec_is_answer = !r.answer.is_empty() && r.answer.iter().any(is_sig);
@@ -353,7 +355,7 @@ impl Scenario for ValidatorScn {
     }
 }
 
-const QUERIES: [(&str, Rtype, &str); 24] = [
+const QUERIES: [(&str, Rtype, &str); 26] = [
     ("www.zone.tld.", Rtype::A, "positive"),
     ("www.zone.tld.", Rtype::TXT, "positive"),
     ("zone.tld.", Rtype::SOA, "positive"),
@@ -371,6 +373,8 @@ const QUERIES: [(&str, Rtype, &str); 24] = [
     ("foo.wild.zone.tld.", Rtype::A, "wildcard"),
     ("bar.baz.wild.zone.tld.", Rtype::TXT, "wildcard"),
     ("foo.wild.zone.tld.", Rtype::MX, "wildcard-nodata"),
+    ("x.dn.zone.tld.", Rtype::A, "dname"),
+    ("nope.dn.zone.tld.", Rtype::A, "dname-nxdomain"),
     ("alias.zone.tld.", Rtype::A, "cname"),
     ("alias2.zone.tld.", Rtype::A, "cname"),
     ("dangling.zone.tld.", Rtype::A, "cname-nxdomain"),
@@ -461,6 +465,7 @@ async fn run(_tier: Tier) {
                     Harm::DropAnswerRrset,
                     Harm::ForgedNxdomainBelowCut,
                     Harm::WildcardReplay,
+                    Harm::ForgeDnameCname,
                 ],
             )
         } else {
@@ -472,6 +477,15 @@ async fn run(_tier: Tier) {
                     let insecure = r.insecure;
                     r = f;
                     r.insecure = insecure;
+                    true
+                }
+                None => false,
+            }
+        } else if final_harm == Harm::ForgeDnameCname {
+            match w.forged_dname_cname(qname, qtype) {
+                Some(f) => {
+                    r = f;
+                    sim::stat("fault.dname_cname_redirected");
                     true
                 }
                 None => false,
@@ -618,7 +632,7 @@ async fn run(_tier: Tier) {
             }
             if !cache_poisoned && in_window && clock_plan != 7 && clock_plan != 8 {
                 let want = if *c_insecure { "Insecure" } else { "Secure" };
-                let opt_out_negative = world_idx == 3 && matches!(*cc, "nxdomain" | "wildcard" | "wildcard-nodata" | "cname-nxdomain");
+                let opt_out_negative = world_idx == 3 && matches!(*cc, "nxdomain" | "wildcard" | "wildcard-nodata" | "cname-nxdomain" | "dname-nxdomain");
                 if cstate != want && !(opt_out_negative && cstate == "Insecure") {
                     sim::violation(
                         P,
@@ -700,7 +714,7 @@ async fn run(_tier: Tier) {
             // With NSEC3 opt-out a covering NSEC3 cannot prove that no
             // insecure delegation exists there (RFC 5155 section 9.2):
             // such negative / wildcard answers may be reported Insecure.
-            let opt_out_negative = world_idx == 3 && matches!(class, "nxdomain" | "wildcard" | "wildcard-nodata" | "cname-nxdomain");
+            let opt_out_negative = world_idx == 3 && matches!(class, "nxdomain" | "wildcard" | "wildcard-nodata" | "cname-nxdomain" | "dname-nxdomain");
             if state != want && !(opt_out_negative && state == "Insecure") {
                 sim::violation(
                     P,
